@@ -3,6 +3,7 @@
 -/
 import Driver.FwRun
 import MbVerif.Spec.C04
+import MbVerif.Spec.C01
 import MbVerif.Spec.C02
 import MbVerif.Spec.C03
 
@@ -11,7 +12,7 @@ open Mb
 
 /-- all framework-level monitors: (property id, failure description) -/
 def fwMonitors (t : FwTrace) : List (String × Option String) :=
-  [ ("C04", C04.monitor t), ("C02", C02.monitor t), ("C03", C03.monitor t) ]
+  [ ("C01", C01.monitor t), ("C04", C04.monitor t), ("C02", C02.monitor t), ("C03", C03.monitor t) ]
 
 def hasEv (t : FwTrace) (ev : Nat) : Bool :=
   t.calls.any (fun c => c.log.any (fun e => match e with
